@@ -1,11 +1,13 @@
 //! C16 driver -- only the queried server's matching reply completes a query.
 //!
 //!   drive_c16 udp-replay --trace f   < cases.ndjson > verdicts.ndjson   (Gen_UdpMatch schedules)
+//!   drive_c16 udp-replay-retx --trace f < cases > verdicts             (Gen_UdpRetx: one retransmission)
 //!   drive_c16 udp-record --trace f --seed S --n N [--max-dgrams D]      (random schedules, retransmissions)
 //!   drive_c16 mux-replay --trace f   < cases.ndjson > verdicts.ndjson   (Gen_Mux behaviours)
 //!   drive_c16 mux-record --trace f --seed S --n N [--max-reqs R] [--steps K]
 //!   drive_c16 mux-stress --trace f --seed S --n N --max-reqs R          (R requests in flight at once)
-//!   drive_c16 mux-probe                                                  (observation: undrained burst)
+//!   drive_c16 mux-bursts --trace f --seed S --n N                       (same-ID bursts, floods of > 100 arrivals)
+//!   drive_c16 mux-probe                                                  (observations, no verdict)
 //!
 //! Everything runs on a single-threaded tokio runtime with a paused clock; there is no real
 //! socket, no real time and no thread scheduling involved.
@@ -52,7 +54,7 @@ fn main() {
     let rt = tokio::runtime::Builder::new_current_thread().enable_time().start_paused(true).build().unwrap();
 
     match mode.as_str() {
-        "udp-replay" | "mux-replay" => {
+        "udp-replay" | "udp-replay-retx" | "mux-replay" => {
             let stdin = io::stdin();
             let cases: Vec<Value> = stdin
                 .lock()
@@ -65,6 +67,8 @@ fn main() {
                 for (ln, c) in cases.iter().enumerate() {
                     if mode == "udp-replay" {
                         udp::replay_one(ln, c, &mut trace, &mut out).await;
+                    } else if mode == "udp-replay-retx" {
+                        udp::replay_retx(ln, c, &mut trace, &mut out).await;
                     } else {
                         mux::replay_one(ln, c, &mut trace, &mut out).await;
                     }
@@ -74,9 +78,13 @@ fn main() {
         "udp-record" => rt.block_on(udp::record(seed, n, max_dgrams, &mut trace, &mut out)),
         "mux-record" => rt.block_on(mux::record(seed, n, max_reqs, steps, &mut trace, &mut out)),
         "mux-stress" => rt.block_on(mux::stress(seed, n, max_reqs, &mut trace, &mut out)),
+        "mux-bursts" => rt.block_on(mux::bursts(seed, n, &mut trace, &mut out)),
         "mux-probe" => rt.block_on(async {
-            for burst in [1usize, 8, 9, 10, 12, 30] {
+            for burst in [1usize, 9, 10, 12, 30] {
                 writeln!(out, "{}", mux::probe_backlog(burst)).unwrap();
+            }
+            for n in [90usize, 100, 101, 150] {
+                writeln!(out, "{}", mux::probe_flood_real(n).await).unwrap();
             }
         }),
         _ => {
